@@ -84,6 +84,18 @@ def boundary_forests():
     for nf in range(1, 10):
         fs.append([([], ("ts", (2001, 2, 3, 4, 5, 6, 123456789 // 10 ** (9 - nf) * 10 ** (9 - nf), 0, 1, 6, nf))),
                    ([], ("ts", (2001, 2, 3, 4, 5, 6, 10 ** (9 - nf), 90, 2, 6, nf))), ([], ("ts", (2001, 2, 3, 4, 5, 6, 0, 0, 0, 6, nf)))])
+    # one caller buffer cut into consecutive lob chunks (the harness passes lobs as sub-slices of ONE backing array, so a
+    # Writer that grows or keeps-and-appends-to a caller's slice overwrites the following chunk): lobs on both sides of
+    # the 64-byte "do not copy" threshold, each followed by small atoms, at top level and inside every container kind
+    chunk = lambda k, n: bytes([(k * 37 + i) % 251 for i in range(n)])
+    for kind in ("blob", "clob"):
+        lobs = [([], (kind, chunk(k, n))) for k, n in enumerate((100, 64, 63, 200, 65, 1000, 64))]
+        small = [([], ("int", 5)), ([], ("bool", True)), ([], ("str", b"zz"))]
+        mixed = [x for pair in zip(lobs, small * 3) for x in pair]
+        fs.append(lobs + small)
+        fs.append(mixed)
+        fs.append([([], ("list", mixed)), ([], ("sexp", lobs)), ([], ("struct", [(b"name", v) for v in mixed]))])
+        fs.append([([b"a"], lobs[0][1]), ([b"b"], lobs[3][1]), ([], ("struct", [(b"f%d" % i, v) for i, v in enumerate(lobs)]))])
     # deep nesting
     v = ([], ("int", 7))
     for i in range(60):
